@@ -15,7 +15,8 @@ EXTENDS Krill, Sequences, SequencesExt, Json, IOUtils
 Rec == ndJsonDeserialize(IOEnv.TRACE)
 
 TraceAspa == {"a1", "a2"} \X {"prov:a2", "prov:a3", "prov:a2+a3", "prov:a1", "prov:a1+a3"}
-TraceRoa == ({"p1", "p2", "p3"} \X {"a1", "a2", "a0"}) \cup TraceAspa
+TraceRtr == {"a1", "a2"} \X {"rtr:k1", "rtr:k2"}
+TraceRoa == ({"p1", "p2", "p3"} \X {"a1", "a2", "a0"}) \cup TraceAspa \cup TraceRtr
 TraceParentOf == [c \in Sub |-> Top]   \* not used by the trace actions
 
 VARIABLES
@@ -174,6 +175,11 @@ TRoaAdd == IsEvent("RoaAdd") /\ Ok
           /\ RoaAdd(Args.c, <<Args.r[1], Args.r[2]>>) /\ Projected(Line.abs)
 TRoaDel == IsEvent("RoaDel") /\ Ok
           /\ RoaDel(Args.c, <<Args.r[1], Args.r[2]>>) /\ Projected(Line.abs)
+\* router keys: configured like route authorisations
+TRtrAdd == IsEvent("RtrAdd") /\ Ok
+          /\ RoaAdd(Args.c, <<Args.r[1], Args.r[2]>>) /\ Projected(Line.abs)
+TRtrDel == IsEvent("RtrDel") /\ Ok
+          /\ RoaDel(Args.c, <<Args.r[1], Args.r[2]>>) /\ Projected(Line.abs)
 RoaOfStr(x) == CHOOSE r \in Roa : r[1] \o "|" \o r[2] = x
 TRoaDelta == IsEvent("RoaDelta") /\ Ok
           /\ RoaDelta(Args.c, {RoaOfStr(x) : x \in SetOf(Args.add)},
@@ -209,7 +215,7 @@ TRepoSyncAll == IsEvent("RepoSyncAll") /\ Ok /\ RepoSyncAll /\ Projected(Line.ab
 TRefused ==
     /\ l <= Len(Rec)
     /\ Line.ev \in {"AddCa", "ChildRes", "ChildSuspend", "ChildUnsuspend",
-                    "ChildRemove", "RoaAdd", "RoaDel", "RoaDelta", "AspaSet", "RollInit",
+                    "ChildRemove", "RoaAdd", "RoaDel", "RoaDelta", "AspaSet", "RtrAdd", "RtrDel", "RollInit",
                     "RollActivate", "DeleteCa"}
     /\ IsError /\ l' = l + 1 /\ rp' = Line.rp
     /\ ObserveKeys(Line.abs.keys) /\ mark' = mark /\ regime' = regime
@@ -313,7 +319,7 @@ TraceNext ==
     \/ Reset \/ Setup
     \/ TAddCa \/ TChildRes \/ TChildResSame \/ TChildSuspend \/ TChildSuspendNoop
     \/ TChildUnsuspend \/ TChildUnsuspendNoop \/ TChildRemove
-    \/ TRoaAdd \/ TRoaDel \/ TRoaDelta \/ TAspaSet \/ TAspaDel \/ TRollInit \/ TRollInitNoop
+    \/ TRoaAdd \/ TRoaDel \/ TRtrAdd \/ TRtrDel \/ TRoaDelta \/ TAspaSet \/ TAspaDel \/ TRollInit \/ TRollInitNoop
     \/ TRollActivate \/ TRollActivateNoop \/ TDeleteCa \/ TRefresh
     \/ TRefused \/ TStep \/ TSettled \/ TPubRemove \/ TPubAdd \/ TRepoSyncAll
     \/ TRepublish \/ TRenew \/ TRestart \/ TDueTouch \/ TRepublishByMargin \/ TExpectByMargin \/ TMark \/ TExpectSame \/ TExpectReissued \/ TExpectRenewed
